@@ -443,10 +443,13 @@ func keepsFrame(op compiler.Opcode) bool {
     assumepre Clone, IsEqual, Display, Fields
     dyncalls-pure
     requires instrPre(*self, instruction)
+    requires @call-arguments-are-values instruction.Opcode() == compiler.Opcode_Call_Val ==> forall k in 0..len(self.Stack) :: self.Stack[k] != nil && *self.Stack[k] != nil
     ensures @iterator-advance instruction.Opcode() == compiler.Opcode_IteratorAdvance ==> result == nil
     ensures @host-call-consumes-its-arguments instruction.Opcode() == compiler.Opcode_HostCall && result == nil ==> int64(len(self.Stack)) == old(int64(len(self.Stack))) - old(self.peek(0).(value.ValueInt).Inner)
     ensures @call-of-a-program-function instruction.Opcode() == compiler.Opcode_Call_Val && old(self.peek(1)).Kind() == value.VmFunctionValueKind ==> result == nil && len(self.CallStack) == old(len(self.CallStack))+1 && len(self.Stack) == old(len(self.Stack))-2
     loop "i < int(numArgs)"#2 invariant 0 <= i && i <= int(numArgs) && len(self.Stack) == entry(len(self.Stack)) - i && (cap(args) == 0 || fresh(args)) && sameslice(self.Stack[:0], entry(self.Stack[:0]))
+    loop "i < int(numArgs)"#2 invariant len(args) == i && forall j in 0..len(args) :: args[j] != nil
+    loop "i < int(numArgs)"#2 invariant forall k in 0..len(self.Stack) :: self.Stack[k] != nil && *self.Stack[k] != nil
     assume @builtin-results-are-values before if res != nil && (*res).Kind() != value.NullValueKind { :: res == nil || *res != nil
     loop "i < argc" invariant 0 <= i && i <= argc && len(self.Stack) == entry(len(self.Stack)) - i && (cap(args) == 0 || fresh(args)) && sameslice(self.Stack[:0], entry(self.Stack[:0]))
     modifies self.Stack, self.CallStack, self.MemoryPointer, self.ExceptionCatchLabels, self.tryStates, elems(self.tryStates), elems(self.Stack), elems(self.Memory), elems(self.CallStack), elems(self.ExceptionCatchLabels), heap(value.Value), mapcontent(self.parent.globals.Data)
